@@ -502,12 +502,8 @@ func (s *server) snap() *kit.Failure {
 		return f
 	}
 	ob := s.w.ob
-	if excl(findingMemberTombstone) && staleMemberTombstone(s.doc.RootObject()) {
-		ob.hit("excluded:" + findingMemberTombstone)
-		return nil
-	}
-	if excl(findingGarbageLeak) && leakedGarbage(s.doc) {
-		ob.hit("excluded:" + findingGarbageLeak)
+	if id := snapshotExclusion(s.doc); id != "" {
+		ob.hit("excluded:" + id)
 		return nil
 	}
 	pbSnap := &api.Snapshot{}
@@ -993,20 +989,36 @@ func runCase(c Case, ob *observer) (fail *kit.Failure, hist []string) {
 				x.logf("c%d: sync", i)
 				return x.syncBoth(i, false)
 			}
-			if excl(findingMemberTombstone) {
-				// a replica built from a snapshot whose decoding is not
-				// deterministic (known finding) cannot be compared
+			if !kit.NoExclusions() {
+				// a replica built from a snapshot whose decoding is lossy or
+				// not deterministic (known findings) cannot be compared
 				if f := x.snapBoth(); f != nil {
 					return f
 				}
-				if x.w.srv.dead == "" && staleMemberTombstone(x.w.srv.doc.RootObject()) {
-					ob.hit("excluded:" + findingMemberTombstone)
-					x.logf("c%d: sync (late attach excluded: %s)", i, findingMemberTombstone)
+				if id := snapshotExclusion(x.w.srv.doc); x.w.srv.dead == "" && id != "" {
+					ob.hit("excluded:" + id)
+					x.logf("c%d: sync (late attach excluded: %s)", i, id)
 					return x.syncBoth(i, false)
 				}
 			}
 			x.logf("c%d: attach from a snapshot", len(x.d.reps))
 			return x.syncBoth(0, true)
+		}
+		if !kit.NoExclusions() {
+			// F6 (open, upstream-known): an undo/redo whose reverse holds an
+			// Object.Set restores an element by value under its original
+			// createdAt. Under C09 the same trigger loses content: the wire
+			// form of a Text value carries no nodes, so a peer restores an
+			// empty text where direct delivery restores the content.
+			_, why := prog.GuardF6(x.d.reps[i].d, s)
+			if why == "" {
+				why = guardSpanOrder(x.d.reps[i].d, s)
+			}
+			if why != "" {
+				ob.hit("excluded:" + why)
+				x.logf("c%d: %s skipped (%s)", i, s.Op, why)
+				return nil
+			}
 		}
 		da, ea := prog.ApplyEdit(x.d.reps[i].d, s)
 		db, eb := prog.ApplyEdit(x.w.reps[i].d, s)
@@ -1033,6 +1045,11 @@ func runCase(c Case, ob *observer) (fail *kit.Failure, hist []string) {
 		if f := step(s); f != nil {
 			return f, x.hist
 		}
+	}
+	// a snapshot while replicas still hold unsent changes: the final rounds
+	// deliver them as a tail onto the decoded twin
+	if f := step(prog.Step{Op: "snap"}); f != nil {
+		return f, x.hist
 	}
 	for round := 0; round < 2; round++ {
 		for i := range x.d.reps {
@@ -1095,13 +1112,13 @@ func scanShapes(m protoreflect.Message, cl map[string]int) {
 			cl["shape:element_tombstone"]++
 		}
 		if has("moved_at") {
-			cl["shape:element_moved_at"]++
+			cl["has:element_moved_at"]++
 		}
 		if d.Name() == "Counter" {
-			cl["shape:counter"]++
+			cl["has:counter_element"]++
 		}
 	case "Increase":
-		cl["shape:counter"]++
+		cl["shape:counter_increase"]++
 	case "Change":
 		if has("presence_change") {
 			cl["shape:presence"]++
@@ -1141,7 +1158,7 @@ func scanShapes(m protoreflect.Message, cl map[string]int) {
 			case api.ValueType_VALUE_TYPE_JSON_OBJECT, api.ValueType_VALUE_TYPE_JSON_ARRAY, api.ValueType_VALUE_TYPE_TREE:
 				e := &api.JSONElement{}
 				if proto.Unmarshal(b, e) == nil {
-					cl["shape:nested_element_bytes"]++
+					cl["has:nested_element_bytes"]++
 					scanShapes(e.ProtoReflect(), cl)
 				}
 			}
